@@ -2754,6 +2754,11 @@ class PerspConvex(Convex):
                  multiplier=1):
 
         super().__init__(affine_in, affine_out, xtype, sign, multiplier)
+        if isinstance(affine_scale, (Vars, VarSub, Affine)):
+            if affine_scale.model is not affine_in.model:
+                raise ValueError('Models mismatch.')
+        elif not isinstance(affine_scale, (Real, np.ndarray)):
+            raise TypeError('Unsupported scale of a perspective function.')
         if isinstance(affine_scale, np.ndarray):
             # the values at declaration time, not a reference to user data
             affine_scale = affine_scale.copy()
@@ -4270,6 +4275,9 @@ class DecAffine(Affine):
             if x.size > 1:
                 raise ValueError('The expression of x must be a scalar')
 
+        if isinstance(x, (Vars, VarSub, Affine)):
+            if self.model is not x.model:
+                raise ValueError('Models mismatch.')
         if isinstance(x, (DecVar, DecVarSub, DecAffine)):
             event_adapt = comb_set(event_adapt, x.event_adapt)
 
@@ -4280,6 +4288,9 @@ class DecAffine(Affine):
             if z.size > 1:
                 raise ValueError('The expression of z must be a scalar')
 
+        if isinstance(z, (Vars, VarSub, Affine)):
+            if self.model is not z.model:
+                raise ValueError('Models mismatch.')
         if isinstance(z, (DecVar, DecVarSub, DecAffine)):
             event_adapt = comb_set(event_adapt, z.event_adapt)
 
